@@ -430,6 +430,10 @@ class DNSIncoming:
             if not linked_labels:
                 linked_labels = []
                 seen_pointers.add(link_py_int)
+                if len(seen_pointers) > MAX_DNS_LABELS:
+                    raise IncomingDecodeError(
+                        f"Maximum dns compression pointers reached at {off} from {self.source}"
+                    )
                 self._decode_labels_at_offset(link, linked_labels, seen_pointers)
                 self._name_cache[link_py_int] = linked_labels
             labels.extend(linked_labels)
